@@ -63,6 +63,7 @@ def witnesses(tier, seed):
         for uplo in ('Upper', 'UniLower'):
             for n in ([2, 3, 4, 5, 8, 9] if quick else [2, 3, 4, 5, 6, 7, 8, 9, 12, 16, 17]):
                 W.append(mk_tinverse(t, n, uplo))
+    W += pivot_helper_witnesses(['colwise'], tier)
     return group_sort(W)
 
 
